@@ -11,6 +11,10 @@
     inputs); the direct oracle re-derives every row: inputs from exact rational grid points, outputs by sequential scalar
     processing on a deep copy of the engine.
 (c) reader contents with comments, blank lines, surrounding whitespace, skipped lines, extra columns and the error cases.
+(d) engine pipeline (Model/FldEngine.v, C18b): small General-activation engines from enginelib (1-3 inputs, small grids, sometimes
+    holding state from an earlier run): the Coq side computes the numeric matrix from the ENGINE model (restart, clipping
+    setter, vectorised process of Model/Batch.v, getters, hstack) and the whole text; compared with the matrix the
+    implementation hands to numpy.savetxt (captured on a harness subclass) and with the exported text.
 """
 from __future__ import annotations
 
@@ -24,7 +28,7 @@ import numpy as np
 
 import vlib
 
-COQ_TARGETS = ["Proofs/FldProofs.vo"]
+COQ_TARGETS = ["Proofs/FldProofs.vo", "Proofs/FldEngineProofs.vo", "Model/Observe.vo", "Model/EngineF.vo"]
 RANGES = [(-1.5, 2.25), (0.0, 1.0), (10.0, 20.0), (-3.0, -1.0)]
 SEPARATORS = [" ", ",", ", ", "\t", ";", " | ", "  "]
 DECIMALS = [0, 1, 2, 3, 3, 3, 4, 6, 9]
@@ -678,6 +682,128 @@ def reader_part(ctx, fl, verdict, stats):
     return [(ctype, "reader_check", lits)], index
 
 
+# --------------------------------------------------------------------------- (d) the engine pipeline (C18b)
+ENGINE_PRELUDE = r"""From VF Require Import GenNorm GenHedge GenTerm Cascade Engine Observe NpLite Batch Ops EngineF FldEngine.
+Definition fmat_feq (a b : list (list float)) : bool := list_eqb (list_eqb feq) a b.
+Definition engine_check (c : engine float * (string * bool * bool * bool) * (bool * Z * Z * list bool) * oracle
+                             * list (float * string) * (list (list float) + nat) * result string) : bool :=
+  let '(e, x, (sc, v, p, act), tbl, ftbl, expect_m, expect_t) := c in
+  let NB := NumF false tbl in
+  match @scope_inputs float NB (fun _ _ => p) (sc_of sc) v e (fun i => nth i act true) with
+  | Ok ins =>
+      match @engine_matrix float NB (mk_x x) e ins, expect_m with
+      | Ok m, inl m' => fmat_feq m m'
+      | Err er, inr c => Nat.eqb (err_code er) c
+      | _, _ => false
+      end
+      && res_eq (@write_engine float NB (flook ftbl) (mk_x x) e ins) expect_t
+  | Err _ => false
+  end.
+"""
+ERR_NAME = {1: "ESyntax", 2: "EValue", 3: "ELookup", 4: "ERuntime", 5: "EInternal"}
+
+
+def make_spy(fl):
+    import fuzzylite.exporter as X
+
+    class _NumpyProxy:
+        """`np` as seen by fuzzylite.exporter while one export runs: numpy, with savetxt keeping a copy of its matrix"""
+
+        def __init__(self, owner):
+            self._owner = owner
+
+        def __getattr__(self, name):
+            if name == "savetxt":
+                def savetxt(fname, m, *a, **kw):
+                    self._owner.matrix = np.array(m, dtype=float, copy=True)
+                    return np.savetxt(fname, m, *a, **kw)
+
+                return savetxt
+            return getattr(np, name)
+
+    class Spy(fl.FldExporter):
+        def write(self, engine, writer, input_values):  # noqa: D102
+            self.matrix = None
+            saved = X.np
+            X.np = _NumpyProxy(self)
+            try:
+                return super().write(engine, writer, input_values)
+            finally:
+                X.np = saved
+
+    return Spy
+
+
+def engine_part(ctx, fl, verdict, stats):
+    import enginelib as E
+    from props.C01 import err_code
+
+    S = fl.FldExporter.ScopeOfValues
+    Spy = make_spy(fl)
+    rng = ctx.rng
+    lits, index = [], []
+    for case in range(ctx.n(60, 600)):
+        desc = E.gen_engine(rng, profile="algebraic", activations=("General",), weighted=True)
+        engine = E.build_engine(fl, desc)
+        ivs, ovs = engine.input_variables, engine.output_variables
+        n = len(ivs)
+        dirty = rng.random() < 0.5
+        if dirty:  # an earlier run leaves values, previous values, fuzzy outputs and rule degrees behind
+            try:
+                with np.errstate(all="ignore"):
+                    for _ in range(rng.choice([1, 2])):
+                        for iv, xval in zip(ivs, E.gen_row(rng, desc)):
+                            iv.value = xval
+                        engine.process()
+            except Exception:  # noqa
+                pass
+        is_all = rng.random() < 0.5
+        v = rng.randint(1, 16) if is_all else rng.randint(1, max(1, int(16 ** (1.0 / n))))
+        flags = [True] * n
+        if rng.random() < 0.15:
+            flags = [rng.random() < 0.5 for _ in ivs]
+        active = {iv for iv, f in zip(ivs, flags) if f}
+        sep = rng.choice(SEPARATORS)
+        hdr, xi, xo = (rng.random() < 0.7, rng.random() < 0.85, rng.random() < 0.9)
+        d = rng.choice(DECIMALS)
+        lit = E.lit_engine(fl, desc, engine)  # the state the export starts from
+        p = int(round(pow(v, 1.0 / n)))
+        spy = Spy(separator=sep, headers=hdr, input_values=xi, output_values=xo)
+        what = f"engine case {case}: {n} inputs, {len(ovs)} outputs, {'all' if is_all else 'each'} variables = {v}, dirty {dirty}, switches {hdr}/{xi}/{xo}, active {flags}"
+        text = code = None
+        with vlib.patch_observed():
+            vlib.RECORDER.reset()
+            try:
+                with np.errstate(all="ignore"), fl.settings.context(decimals=d):
+                    text = spy.to_string_from_scope(engine, v, S.AllVariables if is_all else S.EachVariable, active)
+            except Exception as ex:  # noqa
+                code = err_code(ex)
+            tbl = vlib.RECORDER.take()
+        stats["engine_cases"] += 1
+        stats["cls_engine_" + ("error" if code else "dirty" if dirty else "fresh")] += 1
+        if code is None:
+            m = spy.matrix
+            m = np.zeros((0, 0)) if m is None or m.size == 0 else np.atleast_2d(m)
+            if m.ndim == 2 and spy.matrix is not None and np.ndim(spy.matrix) == 1:
+                m = m.T  # savetxt writes a 1-d array as one column
+            stats["engine_rows"] += len(m)
+            stats["keys"].add(("engine", lit, is_all, v, sep, hdr, xi, xo, d, tuple(flags), text))
+            ftbl = {}
+            for xv in m.ravel().tolist():
+                ftbl.setdefault(vlib.fhex(xv) if xv == xv else "nan", (xv, fmt_num(xv, d)))
+            ftbl_lit = vlib.coq_list(f"({vlib.fhex(a)}, {cstr(b)})" for a, b in ftbl.values())
+            exp_m, exp_t = f"(inl {cmat(m)})", f"(Ok {cstr(text)})"
+        else:
+            ftbl_lit, exp_m, exp_t = "[]", f"(inr {code}%nat)", f"(Err {ERR_NAME[code]})"
+        x_lit = f"({cstr(sep)}, {cbool(hdr)}, {cbool(xi)}, {cbool(xo)})"
+        lits.append(f"(({lit})%nat, {x_lit}, ({cbool(is_all)}, {v}, {p}, {vlib.coq_list(map(cbool, flags))}), {vlib.oracle_lit(tbl)}, {ftbl_lit}, {exp_m}, {exp_t})")
+        index.append(("engine-pipeline", what))
+    ctype = ("engine float * (string * bool * bool * bool) * (bool * Z * Z * list bool) * oracle * list (float * string) "
+             "* (list (list float) + nat) * result string")
+    return [(ctype, "engine_check", lits)], index
+
+
+
 # --------------------------------------------------------------------------- driver
 class Stats(dict):
     def __missing__(self, k):
@@ -694,13 +820,14 @@ def run(ctx, build, verdict, ev):
     g1, i1 = shape_part(ctx, fl, verdict, stats)
     g2, i2 = text_part(ctx, fl, verdict, stats)
     g3, i3 = reader_part(ctx, fl, verdict, stats)
+    g4, i4 = engine_part(ctx, fl, verdict, stats)
     if fl.settings.decimals != decimals0:
         verdict.add_broken("harness", "settings", "fl.settings.decimals was not restored")
     prelude = PRELUDE.replace("RANGES_", vlib.coq_list(f"({vlib.fhex(a)}, {vlib.fhex(b)})" for a, b in RANGES))
     mism = []
     if not build.translation_errors:
-        for name, groups, index, chunk in (("c18shape", g1, i1, 400), ("c18text", g2, i2, 8), ("c18reader", g3, i3, 40)):
-            bad, log = vlib.run_coq_cases(ctx.work, name, prelude, groups, chunk=chunk, timeout=ctx.n(900, 3000))
+        for name, groups, index, chunk in (("c18shape", g1, i1, 400), ("c18text", g2, i2, 8), ("c18reader", g3, i3, 40), ("c18engine", g4, i4, 4)):
+            bad, log = vlib.run_coq_cases(ctx.work, name, prelude + (ENGINE_PRELUDE if name == "c18engine" else ""), groups, chunk=chunk, timeout=ctx.n(900, 3000))
             for i in bad:
                 if i < 0:
                     verdict.add_broken("correspondence", f"C18:coq-evaluation:{name}", log)
@@ -709,14 +836,14 @@ def run(ctx, build, verdict, ev):
     if mism:
         verdict.add_broken("correspondence", f"FldExporter {mism[0][0]}", f"model and implementation differ on {len(mism)} cases, first: {mism[:4]}")
     c = ev["coverage"]
-    c["evaluations"] = stats["shape_cases"] + stats["edge_cases"] + stats["text_cases"] + stats["reader_cases"]
+    c["evaluations"] = stats["shape_cases"] + stats["edge_cases"] + stats["text_cases"] + stats["reader_cases"] + stats["engine_cases"]
     c["distinct_nontrivial"] = len(stats["keys"])
     c["rule"] = ("(a) every v in %s x n = 1..4 x both scopes (EachVariable only while v^n <= %d; %d combinations skipped as too large to export) on a real engine "
                  "with n inputs: rows, values per input, first/last row, sequential checksum of the matrix; (b) random engine (shipped examples / generated FLL, 1-4 inputs) x v x scope x "
                  "switches x separator x decimals x active subset, whole text; (c) random reader texts (comments, blank lines, whitespace of every ASCII kind, skipped lines, extra columns, "
-                 "too few / ragged / non-numeric / empty).  distinct_nontrivial = measured number of distinct (scope, v, n) / (engine, configuration, exported text) / (engine, configuration, reader text, result) keys; the %d edge cases (v <= 0, no inputs) are not counted"
+                 "too few / ragged / non-numeric / empty); (d) enginelib engines (General activation, algebraic terms, integral and weighted defuzzifiers, lock-previous/default/lock-range, half of them holding state from earlier runs) x small grids: numeric matrix and text computed from the engine model alone.  distinct_nontrivial = measured number of distinct (scope, v, n) / (engine, configuration, exported text) / (engine, configuration, reader text, result) keys; the %d edge cases (v <= 0, no inputs) are not counted"
                  % ("1..300 + perfect powers <= 2000 and neighbours" if ctx.tier == "quick" else "1..2000", ctx.n(4096, 20000), stats["each_skipped_too_large"], stats["edge_cases"]))
-    c["distribution"] = {k: v for k, v in stats.items() if k.startswith(("cls_", "scalar_mode")) or k in ("shape_cases", "edge_cases", "text_cases", "reader_cases", "rows_total", "text_rows", "reader_rows", "each_skipped_too_large")}
+    c["distribution"] = {k: v for k, v in stats.items() if k.startswith(("cls_", "scalar_mode")) or k in ("shape_cases", "edge_cases", "text_cases", "reader_cases", "engine_cases", "engine_rows", "rows_total", "text_rows", "reader_rows", "each_skipped_too_large")}
     c["correspondence_mismatches"] = len(mism)
     c["oracle_violations"] = stats["oracle_violations"]
     c["all_variables_root_mismatches"] = [{"v": v, "n": n, "values_per_input": g, "documented_k": w, "rows": r} for v, n, g, w, r in stats["root_bad"]]
